@@ -14,7 +14,7 @@ def _work(item):
     fam = hlib.FAM[spec["fam"]]
     prog = conc.Prog(fam, spec["which"], spec["relation"], spec["op1"], spec["op2"], ctx=tuple(spec["ctx"]) if spec.get("ctx") else None)
     try:
-        r = conc.decide_pair(prog, max_replays=spec.get("max_replays", 8), variants=spec.get("variants", False), check_deadlock=spec.get("deadlock", True))
+        r = conc.decide_pair(prog, max_replays=spec.get("max_replays", 8), variants=spec.get("variants", False), check_deadlock=spec.get("deadlock", True), cycles=spec.get("cycles", True))
     except BaseException as e:  # noqa
         import traceback
 
@@ -31,7 +31,7 @@ def _work(item):
     return r
 
 
-def run(pid, tier, seed, specs, mod, fingerprint):
+def run(pid, tier, seed, specs, mod, fingerprint, emit=True):
     """specs: list of program dicts.  fingerprint(result) -> dict used to match
     known_findings.json for a violated program."""
     t0 = time.time()
@@ -96,6 +96,8 @@ def run(pid, tier, seed, specs, mod, fingerprint):
         "verdict": {0: "holds-within-bounds" if exhaustive else "no-violation-found (some candidate cycles replayed to serial outcomes or stayed unresolved)", 1: "violated", 2: "harness-error"}[code],
     }
     ev = {"property_id": pid, "tier": tier, "seed": seed, "level": "model_checking", "coverage": cov, "assumptions": getattr(mod, "ASSUMPTIONS", []), "wall_s": round(time.time() - t0, 2), "violations": viol}
+    if not emit:
+        return {"code": code, "coverage": cov, "lines": out, "violations": viol, "wall_s": ev["wall_s"]}
     write_evidence(pid, ev)
     for line in out:
         print(line)
